@@ -373,6 +373,9 @@ class LArr:
     def copy(self):
         return LArr(self.shape, self.fn, self._aid, self.tag)
 
+    def close(self):
+        pass
+
     def astype(self, dt, copy=True):
         old = self.fn
         d = arrays._np_dtype(dt)
